@@ -169,7 +169,10 @@ STRINGLY_SET = '("open$", "closed$", "pending$")'
 def dry_member(i: int, g: int) -> str:
     # the members of a group also define the same module-level constant (DRY's duplicate-constant detection: its
     # messages list the OTHER files, so groups of three or more make the listing order observable)
-    return f"RETRY_LIMIT_G{g} = 30\n\n\ndef fn{i}(records{g}):\n" + DRY_BLOCK.replace("$", str(g))
+    # ... under names that form a CHAIN of near-matches (A ~ B ~ C, but A and C are too far apart to match directly):
+    # which constants end up in one group must not depend on the order in which the files are seen
+    const = ("RETRY_LIMIT", "RETRY_LIMITS", "RETRY_LIMITSXY")[i % 3]
+    return f"{const}_G{g} = 30\n\n\ndef fn{i}(records{g}):\n" + DRY_BLOCK.replace("$", str(g))
 
 
 def stringly_member(i: int, g: int) -> str:
